@@ -1,7 +1,41 @@
 import Driver.Common
-open Drv
+import KatdalModel.Model.Chunks
+open Np Drv Chunks
 
-/-- stub driver for C06: replaced when the property's model lands -/
-def step (_line : String) : String := "bad-op"
+/-- requests:
+    chunkmap <sizes> <n>         -> chunkOf for every position 0..n-1 (spec side)
+    piecemap <c1> <c2> <n>       -> source chunk per position as the piece decomposition sees it (mirror)
+    pieces <c1> <c2>             -> start:len:dst:src,...
+    align <timechunks> <max>     -> padded time chunks
+    prune <sizes> <start> <stop> -> kept sizes | offset | start | stop -/
+def step (line : String) : String :=
+  match line.splitOn " " with
+  | ["chunkmap", sizes, n] =>
+    match parseNatList sizes, n.toNat? with
+    | some sz, some n => showNatList ((List.range n).map (chunkOf sz))
+    | _, _ => "bad-op"
+  | ["piecemap", c1, c2, n] =>
+    match parseNatList c1, parseNatList c2, n.toNat? with
+    | some c1, some c2, some n =>
+      let ps := pieces c1 c2
+      ",".intercalate ((List.range n).map fun p => match srcOfPieces ps p with
+        | some s => toString s | none => "-")
+    | _, _, _ => "bad-op"
+  | ["pieces", c1, c2] =>
+    match parseNatList c1, parseNatList c2 with
+    | some c1, some c2 =>
+      ",".intercalate ((pieces c1 c2).map fun q => s!"{q.start}:{q.len}:{q.dst}:{q.src}")
+    | _, _ => "bad-op"
+  | ["align", tc, mx] =>
+    match parseNatList tc, mx.toNat? with
+    | some tc, some mx => showNatList (alignTime tc mx)
+    | _, _ => "bad-op"
+  | ["prune", sizes, a, b] =>
+    match parseNatList sizes, a.toNat?, b.toNat? with
+    | some sz, some a, some b =>
+      let (k, off, st, sp) := pruneAxis sz a b
+      s!"{showNatList k}|{off}|{st}|{sp}"
+    | _, _, _ => "bad-op"
+  | _ => "bad-op"
 
 def main : IO Unit := Drv.loop step
